@@ -64,6 +64,8 @@ type world struct {
 	d   *fb.Dialer
 	svc *client.Service
 
+	lostUnsub int // topics left subscribed by an unacknowledged UNSUBSCRIBE (finding F17)
+
 	mu        sync.Mutex
 	queue     []string       // pending failure modes for coming connection attempts
 	modeOf    map[int]string // mode chosen for link n
@@ -452,12 +454,20 @@ func runCase(c *Case) (*verdict, *world) {
 	if twice != "" {
 		return w.fail("commands/carried-out-twice", "%s", twice), w
 	}
-	// allowed final state per topic: calls whose future was cancelled may count either way
+	// expected final state per topic: every call counts, in call order (the queue
+	// never fills up here, so no call is dropped before the dispatcher has
+	// recorded it). One history is a recorded finding (KNOWN_FINDINGS.txt,
+	// lostUnsubSig): with a persistent session an UNSUBSCRIBE whose
+	// acknowledgement never arrived is not repeated after the reconnect, and
+	// re-subscribing cannot undo it - the broker may be left with whatever an
+	// earlier Subscribe call for that topic established.
 	type opt struct {
 		on  bool
 		qos int
 	}
 	allowed := map[string][]opt{}
+	lostUnsub := map[string][]opt{}
+	earlier := map[string][]opt{}
 	w.mu.Lock()
 	calls := append([]*call{}, w.calls...)
 	w.mu.Unlock()
@@ -467,23 +477,18 @@ func runCase(c *Case) (*verdict, *world) {
 		}
 		// the probe round trip ordered every earlier acknowledgement before this point
 		err := cl.fut.Wait(50 * time.Millisecond)
-		if err == future.ErrTimeout {
-			// a SUBSCRIBE/UNSUBSCRIBE lost with its connection is not retransmitted; its future stays pending until Stop(true): counts either way
-			err = future.ErrCanceled
-		}
 		nw := opt{on: cl.kind == "sub", qos: cl.qos}
-		// every call counts, in call order (the queue never fills up here, so no
-		// call is dropped before the dispatcher has recorded it); only an
-		// UNSUBSCRIBE that was lost on its way to a persistent session cannot be
-		// made good by re-subscribing and counts either way
-		if cl.kind == "sub" || err == nil || c.Clean {
-			allowed[cl.topic] = []opt{nw}
-		} else {
-			prev := allowed[cl.topic]
-			if prev == nil {
-				prev = []opt{{on: false}}
-			}
-			allowed[cl.topic] = append(prev, nw)
+		allowed[cl.topic] = []opt{nw}
+		switch {
+		case cl.kind == "sub":
+			earlier[cl.topic] = append(earlier[cl.topic], nw)
+			delete(lostUnsub, cl.topic)
+		case err == nil:
+			earlier[cl.topic] = nil
+			delete(lostUnsub, cl.topic)
+		case !c.Clean:
+			// not acknowledged (lost with its connection, or cancelled)
+			lostUnsub[cl.topic] = append([]opt{}, earlier[cl.topic]...)
 		}
 	}
 	// the probe round trip above proves that every earlier command was dispatched
@@ -523,6 +528,14 @@ func runCase(c *Case) (*verdict, *world) {
 		for _, o := range opts {
 			if o.on == on && (!on || o.qos == q) {
 				ok = true
+			}
+		}
+		if !ok && on {
+			for _, o := range lostUnsub[t] {
+				if o.qos == q {
+					ok = true
+					w.lostUnsub++
+				}
 			}
 		}
 		if !ok {
@@ -602,6 +615,9 @@ func nontrivial(c *Case) bool {
 	return fail && kick
 }
 
+// lostUnsubSig names the recorded finding F17 (see KNOWN_FINDINGS.txt).
+const lostUnsubSig = "subscriptions/lost-unsubscribe-persistent"
+
 func TestC17(t *testing.T) {
 	run := ev.Start("C17", "fault_enumeration")
 	run.ShrinkTime = "5s"
@@ -613,6 +629,13 @@ func TestC17(t *testing.T) {
 		run.Inflight(c)
 		v, w := runCase(c)
 		run.ClearInflight()
+		if v == nil && w.lostUnsub > 0 {
+			if run.Open(lostUnsubSig) {
+				run.Excluded(lostUnsubSig)
+			} else {
+				v = &verdict{lostUnsubSig, fmt.Sprintf("persistent session: an UNSUBSCRIBE that was not acknowledged before its connection ended was never repeated; after the reconnect the broker still holds the subscription (%d topic(s))\n%s", w.lostUnsub, w.log.Dump())}
+			}
+		}
 		if nontrivial(c) {
 			run.NonTrivialJSON(c)
 		}
@@ -636,6 +659,8 @@ func TestC17(t *testing.T) {
 		{Clean: true, Steps: []Step{{Kind: "sub", T: 0, Q: 1}, {Kind: "sub", T: 1, Q: 1}, {Kind: "online"}, {Kind: "kick"}, {Kind: "unsub", T: 0}, {Kind: "sub", T: 2, Q: 2}, {Kind: "online"}, {Kind: "kick"}, {Kind: "sub", T: 3, Q: 0}}},
 		{Clean: true, Steps: []Step{{Kind: "online"}, {Kind: "fail", M: "suback-fail"}, {Kind: "kick"}, {Kind: "sub", T: 3, Q: 1}, {Kind: "pub1"}, {Kind: "stopclear"}, {Kind: "start"}}},
 	}
+	// F17: the UNSUBSCRIBE of t2 leaves on a connection that drops after its third packet
+	fixed = append(fixed, &Case{Clean: false, Steps: []Step{{Kind: "pub1"}, {Kind: "sub", T: 0, Q: 2}, {Kind: "fail", M: "drop-after-1"}, {Kind: "sub", T: 2, Q: 1}, {Kind: "sub", T: 0, Q: 2}, {Kind: "fail", M: "drop-after-3"}, {Kind: "start"}, {Kind: "stop"}, {Kind: "kick"}, {Kind: "sub", T: 0, Q: 2}, {Kind: "sub", T: 2, Q: 2}, {Kind: "sub", T: 2, Q: 2}, {Kind: "pub0"}, {Kind: "unsub", T: 2}}})
 	if shard, _ := ev.Shard(); shard == 0 {
 		for _, c := range fixed {
 			if v := exec(c); v != nil {
